@@ -1,4 +1,8 @@
 import P2sh.Core.Lines
+import P2sh.Model.Heap
+import P2sh.Model.HMap
+import P2sh.Model.Builtins
+import P2sh.Gen.Builtins
 /-!
 # Functions and closures over the core fragment: syntax, reference evaluation, compiler, machine
 
@@ -26,6 +30,13 @@ instruction that does not touch a frame).
   `Spec/Ref.lean` deliberately leaves what a later activation sees unconstrained — the
   correctness theorem here is about the VM's behaviour), never to the enclosing function's
   variable nor to any other closure object.
+* **arrays and maps** — `FExpr.arrLit` / `mapLit` (literals: the parts left to right, then `Array n` / `Map 2n`), `index`
+  (`c[i]`: `GetIndex`), `setIndex` (`c[i] = e`: the right-hand side FIRST, then the container and the index, `SetIndex`; the
+  value stays).  A container value is a REFERENCE `.arr id []` / `.map id []` to an object of the heap `Sto.a` (`FSt.a` in
+  the machine): every copy of the reference — a variable, a parameter, a captured value, an element of another container —
+  denotes the same object; a literal creates a new object each time it is evaluated; `a + b` creates a new array;
+  operators, truth tests and key comparisons look at the objects through `view`.  `bfn`: a builtin function (`GetBuiltinFn`),
+  called through `Builtins.call` on the views of its arguments (`callBuiltinH`).
 * **reference evaluation** — big-step with fuel: `evalE` / `evalS` / `evalP`; a store is the
   local slots of the running activation plus the globals (by reference); a call evaluates the
   callee, then the arguments left to right, checks the arity, runs the body in a fresh
@@ -82,6 +93,16 @@ inductive FExpr where
   function constant's code bytes and line table (`code`, `lines`: its identity), its parameter
   and slot counts, its body, and the captured values `caps` in the order of their free indices -/
   | mkclos (l : Nat) (code lines : List Nat) (np nl : Nat) (body : List FStmt) (caps : List Cap)
+  /-- `[e1, …, en]` (`l`: the line of the `[` token): the elements left to right, then `Array n` -/
+  | arrLit (l : Nat) (elems : FArgs)
+  /-- `map {k1: v1, …}` (`l`: the line of the `map` token): `k1, v1, k2, v2, …` left to right, then `Map 2n` -/
+  | mapLit (l : Nat) (kvs : FArgs)
+  /-- `c[i]` (`l`: the line of the `[` token): the container, the index, `GetIndex` -/
+  | index (l : Nat) (c i : FExpr)
+  /-- `c[i] = e`: the right-hand side FIRST, then the container, the index, `SetIndex`; the value stays -/
+  | setIndex (l : Nat) (c i e : FExpr)
+  /-- a builtin function named where no user binding hides it: `GetBuiltinFn i` -/
+  | bfn (l : Nat) (i : Nat)
 inductive FArms where
   | last (la lp : Nat) (dflt : FExpr)
   | cons (la : Nat) (pats : List LPat) (body : FExpr) (rest : FArms)
@@ -140,7 +161,41 @@ structure Sto where
   l : List Val
   g : List Val
   h : List (List Val)
+  /-- the heap of arrays and maps (`Rc<Array>`, `Rc<HMap>`): a value `.arr id []` / `.map id []` is a
+  REFERENCE to object `id`; every copy of the reference — in a variable, a slot, a captured value,
+  inside another container — denotes the same object -/
+  a : Heap
 deriving Repr
+
+/-- the store with the heap of arrays and maps `a` (by pattern matching, so that evaluating it
+forces the store it starts from instead of keeping four copies of an unevaluated one) -/
+def Sto.setA : Sto → Heap → Sto
+  | ⟨l, g, h, _⟩, a => ⟨l, g, h, a⟩
+
+@[simp] theorem Sto.setA_eq (σ : Sto) (a : Heap) : σ.setA a = ⟨σ.l, σ.g, σ.h, a⟩ := rfl
+
+/-- the other store updates, by pattern matching for the same reason -/
+def Sto.gset : Sto → Nat → Val → Sto
+  | ⟨l, g, h, a⟩, i, v => ⟨l, g.set i v, h, a⟩
+def Sto.lset : Sto → Nat → Val → Sto
+  | ⟨l, g, h, a⟩, i, v => ⟨l.set i v, g, h, a⟩
+def Sto.setH : Sto → List (List Val) → Sto
+  | ⟨l, g, _, a⟩, h => ⟨l, g, h, a⟩
+def Sto.pushH : Sto → List Val → Sto
+  | ⟨l, g, h, a⟩, vs => ⟨l, g, h ++ [vs], a⟩
+/-- the callee's store: its own slots, the caller's globals and heaps -/
+def Sto.enter : Sto → List Val → Sto
+  | ⟨_, g, h, a⟩, ls => ⟨ls, g, h, a⟩
+/-- back in the caller: the caller's slots, the globals and heaps the callee left -/
+def Sto.back : Sto → Sto → Sto
+  | ⟨l, _, _, _⟩, ⟨_, g, h, a⟩ => ⟨l, g, h, a⟩
+
+@[simp] theorem Sto.gset_eq (σ : Sto) (i : Nat) (v : Val) : σ.gset i v = ⟨σ.l, σ.g.set i v, σ.h, σ.a⟩ := rfl
+@[simp] theorem Sto.lset_eq (σ : Sto) (i : Nat) (v : Val) : σ.lset i v = ⟨σ.l.set i v, σ.g, σ.h, σ.a⟩ := rfl
+@[simp] theorem Sto.setH_eq (σ : Sto) (h : List (List Val)) : σ.setH h = ⟨σ.l, σ.g, h, σ.a⟩ := rfl
+@[simp] theorem Sto.pushH_eq (σ : Sto) (vs : List Val) : σ.pushH vs = ⟨σ.l, σ.g, σ.h ++ [vs], σ.a⟩ := rfl
+@[simp] theorem Sto.enter_eq (σ : Sto) (ls : List Val) : σ.enter ls = ⟨ls, σ.g, σ.h, σ.a⟩ := rfl
+@[simp] theorem Sto.back_eq (σ σ3 : Sto) : σ.back σ3 = ⟨σ.l, σ3.g, σ3.h, σ3.a⟩ := rfl
 
 /-- the function constant of a declaration: the code bytes and line table the compiler stored
 in it (`code`, `lines`: its identity — `==` on functions compares them), and the declaration's
@@ -189,6 +244,200 @@ def floopAct (lbl : Option String) : FFlow → LoopAct
   | .brk l => if targets lbl l then .exit else .propagate
   | .ret _ => .propagate
 
+/-! ## arrays and maps: shared objects
+
+A container value is a reference `.arr id []` / `.map id []` into the heap `Sto.a` (`Model/Heap.lean`:
+the objects by id, the values inside an object are references again).  Whatever LOOKS INTO a
+value — an operator, a truth test, a key comparison, a builtin — sees its `view`: the references
+expanded (`reify`), deep enough for every heap without cycles (a heap of `n` objects nests at most
+`n` deep).  A container BUILT by an operator or a builtin (`[1] + [2]`, `rest(a)`) comes back with
+`id = 0` and is stored as a NEW object (`reflect`); containers that already have an identity
+inside it stay shared.  These functions are used by the reference evaluation AND by the machine. -/
+
+def view (a : Heap) (v : Val) : Val := reify a (a.objs.length + 1) v
+
+/-- `Object::is_falsey`: an array / a map is falsey when it is empty -/
+def falseyH (a : Heap) : Val → Bool
+  | .arr id _ => (a.getArr id).isEmpty
+  | .map id _ => (a.getMap id).isEmpty
+  | v => v.isFalsey
+
+/-- a new object (the definitions here destructure the heap and their intermediate results by
+`match`, so that evaluating them by `rfl` does not duplicate unevaluated heaps) -/
+def allocH : Heap → HObj → Heap × Nat
+  | ⟨objs, next⟩, o => (⟨(next, o) :: objs, next + 1⟩, next)
+
+/-- object `id` becomes `o` -/
+def setH : Heap → Nat → HObj → Heap
+  | ⟨objs, next⟩, id, o => ⟨objs.map (fun p => if p.1 == id then (id, o) else p), next⟩
+
+mutual
+/-- store the containers a pure operation built (`id = 0`) as NEW objects, the innermost first;
+a container that already has an identity stays the reference it was -/
+def storeNew (a : Heap) : Val → Val × Heap
+  | .arr id xs =>
+    if id != 0 then (.arr id [], a)
+    else
+      match storeList a xs with
+      | (ys, a1) =>
+        match allocH a1 (.arr ys) with
+        | (a2, nid) => (.arr nid [], a2)
+  | .map id kvs =>
+    if id != 0 then (.map id [], a)
+    else
+      match storePairs a kvs with
+      | (ys, a1) =>
+        match allocH a1 (.map ys) with
+        | (a2, nid) => (.map nid [], a2)
+  | v => (v, a)
+def storeList (a : Heap) : List Val → List Val × Heap
+  | [] => ([], a)
+  | v :: rest =>
+    match storeNew a v with
+    | (v', a1) =>
+      match storeList a1 rest with
+      | (vs', a2) => (v' :: vs', a2)
+def storePairs (a : Heap) : List (Val × Val) → List (Val × Val) × Heap
+  | [] => ([], a)
+  | (k, v) :: rest =>
+    match storeNew a k with
+    | (k', a1) =>
+      match storeNew a1 v with
+      | (v', a2) =>
+        match storePairs a2 rest with
+        | (ps', a3) => ((k', v') :: ps', a3)
+end
+
+/-- a binary operator on the views of its operands (`==` on arrays is element-wise, `+` on two
+arrays concatenates into a NEW array) -/
+def cmpH (a : Heap) (o : Operator) (l r : Val) : OpRes := execOperator o (view a l) (view a r)
+
+/-- what a binary operator yields: a value that is not a new container (the heap is untouched),
+a new container (stored as a new object), or a runtime error -/
+inductive OpOut where
+  | same (v : Val)
+  | new (v : Val) (a : Heap)
+  | fail
+deriving Repr
+
+def opH (a : Heap) (o : Operator) (l r : Val) : OpOut :=
+  match cmpH a o l r with
+  | .ok (.arr id xs) => (match storeNew a (.arr id xs) with | (v, a') => .new v a')
+  | .ok (.map id kvs) => (match storeNew a (.map id kvs) with | (v, a') => .new v a')
+  -- (a boolean result is evaluated here, not carried along as an unevaluated comparison of views)
+  | .ok (.bool b) => (match b with | true => .same (.bool true) | false => .same (.bool false))
+  | .ok v => .same v
+  | _ => .fail
+
+def unH (a : Heap) : UnOp → Val → OpRes
+  | .bang, v => .ok (.bool (falseyH a v))
+  | .minus, v => unaryMinus v
+  | .bnot, v => unaryNot v
+
+/-- the test of one match pattern, the comparisons on views -/
+def patTestH (a : Heap) (v : Val) : CPat → Option Bool
+  | .lit p => (match cmpH a .notEqual v p with | .ok r => some r.isFalsey | _ => none)
+  | .bool b => (match cmpH a .notEqual v (.bool b) with | .ok r => some r.isFalsey | _ => none)
+  | .range incl lo hi =>
+    (match cmpH a .greaterEq v lo with
+     | .ok r1 =>
+       if r1.isFalsey then some false
+       else (match cmpH a (if incl then .greater else .greaterEq) v hi with
+         | .ok r2 => some r2.isFalsey
+         | _ => none)
+     | _ => none)
+  | .dflt => some true
+
+def patsTestH (a : Heap) (v : Val) : List CPat → Option Bool
+  | [] => some false
+  | p :: ps =>
+    (match patTestH a v p with
+     | some true => some true
+     | some false => patsTestH a v ps
+     | none => none)
+
+/-- `Array n`: a NEW object holding the element values (references stay references) -/
+def mkArr (a : Heap) (vs : List Val) : Val × Heap :=
+  match allocH a (.arr vs) with
+  | (a', id) => (.arr id [], a')
+
+/-- `HashMap::insert` on the entries of a map object: the entry whose key equals `k` (same hash
+stream, `==`; keys compared by their views) keeps its key and gets the value `v`; otherwise a
+new entry is appended -/
+def insertKV (a : Heap) (k v : Val) : List (Val × Val) → List (Val × Val)
+  | [] => [(k, v)]
+  | (k0, v0) :: rest =>
+    if HMap.keyMatch (view a k) (view a k0) then (k0, v) :: rest else (k0, v0) :: insertKV a k v rest
+
+/-- `HashMap::get` -/
+def lookupKV (a : Heap) (k : Val) : List (Val × Val) → Option Val
+  | [] => none
+  | (k0, v0) :: rest => if HMap.keyMatch (view a k) (view a k0) then some v0 else lookupKV a k rest
+
+/-- `build_map`: the pairs in order (a later pair with an equal key wins); a key of an invalid
+kind is a runtime error -/
+def buildMap (a : Heap) : List Val → List (Val × Val) → Option (List (Val × Val))
+  | [], acc => some acc
+  | [_], _ => none
+  | k :: v :: rest, acc => if k.isValidKey then buildMap a rest (insertKV a k v acc) else none
+
+/-- `Map n`: a NEW object -/
+def mkMap (a : Heap) (vs : List Val) : Option (Val × Heap) :=
+  match buildMap a vs [] with
+  | some kvs =>
+    (match allocH a (.map kvs) with
+     | (a', id) => some (.map id [], a'))
+  | none => none
+
+def isNullV : Val → Bool
+  | .null => true
+  | _ => false
+
+/-- `exec_index_expr` reading: an array with an integer index inside `0 … len-1`, a map with a
+valid key that is present (and whose value is not `null`); everything else is a runtime error -/
+def getIndexH (a : Heap) (c i : Val) : Option Val :=
+  match c, i with
+  | .arr id _, .int idx => if idx < 0 then none else (a.getArr id)[idx.toNatClampNeg]?
+  | .map id _, k =>
+    if k.isValidKey then
+      (match lookupKV a k (a.getMap id) with
+       | some v => if isNullV v then none else some v
+       | none => none)
+    else none
+  | _, _ => none
+
+/-- `exec_index_expr` writing: the OBJECT changes — every reference to it sees the new element -/
+def setIndexH (a : Heap) (c i v : Val) : Option Heap :=
+  match c, i with
+  | .arr id _, .int idx =>
+    if idx < 0 then none
+    else if idx.toNatClampNeg < (a.getArr id).length then some (setH a id (.arr ((a.getArr id).set idx.toNatClampNeg v)))
+    else none
+  | .map id _, k => if k.isValidKey then some (setH a id (.map (insertKV a k v (a.getMap id)))) else none
+  | _, _ => none
+
+/-- entry `i` of the builtin table (generated from `BUILTINFNS`) -/
+def builtinName (i : Nat) : Option String := (P2sh.Gen.Builtins.fns[i]?).map (·.1)
+
+/-- the new contents `nf` of the first argument of a mutating builtin are written into THAT argument's
+object (the containers inside `nf` that are new are stored as new objects first) -/
+def writeBack (a : Heap) (args : List Val) (nf : Val) : Heap :=
+  match args.head?, nf with
+  | some (.arr id _), .arr _ xs => (match storeList a xs with | (ys, a') => setH a' id (.arr ys))
+  | some (.map id _), .map _ kvs => (match storePairs a kvs with | (ps, a') => setH a' id (.map ps))
+  | _, _ => a
+
+/-- `call_builtin`: the pure builtin `name` on the views of the arguments (`Builtins.call`, the
+model of `src/builtins/functions.rs`).  A builtin that changes its first argument (`push`, `pop`,
+`insert`, `sort`) writes the new contents into THAT OBJECT (`writeBack`); containers it builds are
+new objects; `sort` returns its argument itself; an error, and a builtin outside the pure ones, is `none`. -/
+def callBuiltinH (a : Heap) (name : String) (args : List Val) : Option (Val × Heap) :=
+  match Builtins.call name (args.map (view a)) with
+  | .ok v => some (storeNew a v)
+  | .mutated ret nf =>
+    if name == "sort" then some (args.headD .null, writeBack a args nf) else some (storeNew (writeBack a args nf) ret)
+  | _ => none
+
 /-! ## reference evaluation -/
 
 section eval
@@ -206,45 +455,45 @@ def evalE : Nat → Option (FnDef × Nat) → Sto → FExpr → Option (Val × S
   | _+1, _, σ, .null _ => some (.null, σ)
   | fuel+1, cx, σ, .un _ op e =>
     match evalE fuel cx σ e with
-    | some (v, σ1) => (match applyUn op v with | .ok r => some (r, σ1) | _ => none)
+    | some (v, σ1) => (match unH σ1.a op v with | .ok r => some (r, σ1) | _ => none)
     | none => none
   | fuel+1, cx, σ, .bin _ op a b =>
     match evalE fuel cx σ a with
     | some (va, σ1) =>
       (match evalE fuel cx σ1 b with
-       | some (vb, σ2) => (match execOperator op va vb with | .ok r => some (r, σ2) | _ => none)
+       | some (vb, σ2) => (match opH σ2.a op va vb with | .same r => some (r, σ2) | .new r a' => some (r, σ2.setA a') | .fail => none)
        | none => none)
     | none => none
   | fuel+1, cx, σ, .lt _ a b =>
     match evalE fuel cx σ b with
     | some (vb, σ1) =>
       (match evalE fuel cx σ1 a with
-       | some (va, σ2) => (match execOperator .greater vb va with | .ok r => some (r, σ2) | _ => none)
+       | some (va, σ2) => (match opH σ2.a .greater vb va with | .same r => some (r, σ2) | .new r a' => some (r, σ2.setA a') | .fail => none)
        | none => none)
     | none => none
   | fuel+1, cx, σ, .le _ a b =>
     match evalE fuel cx σ b with
     | some (vb, σ1) =>
       (match evalE fuel cx σ1 a with
-       | some (va, σ2) => (match execOperator .greaterEq vb va with | .ok r => some (r, σ2) | _ => none)
+       | some (va, σ2) => (match opH σ2.a .greaterEq vb va with | .same r => some (r, σ2) | .new r a' => some (r, σ2.setA a') | .fail => none)
        | none => none)
     | none => none
   | fuel+1, cx, σ, .and _ a b =>
     match evalE fuel cx σ a with
-    | some (va, σ1) => if va.isFalsey then some (va, σ1) else evalE fuel cx σ1 b
+    | some (va, σ1) => if falseyH σ1.a va then some (va, σ1) else evalE fuel cx σ1 b
     | none => none
   | fuel+1, cx, σ, .or _ a b =>
     match evalE fuel cx σ a with
-    | some (va, σ1) => if va.isFalsey then evalE fuel cx σ1 b else some (va, σ1)
+    | some (va, σ1) => if falseyH σ1.a va then evalE fuel cx σ1 b else some (va, σ1)
     | none => none
   | fuel+1, cx, σ, .ite _ c t e =>
     match evalE fuel cx σ c with
-    | some (vc, σ1) => if vc.isFalsey then evalE fuel cx σ1 e else evalE fuel cx σ1 t
+    | some (vc, σ1) => if falseyH σ1.a vc then evalE fuel cx σ1 e else evalE fuel cx σ1 t
     | none => none
   | _+1, _, σ, .gget _ i => some (σ.g.getD i .null, σ)
   | fuel+1, cx, σ, .gset _ i e =>
     match evalE fuel cx σ e with
-    | some (v, σ1) => if i < σ1.g.length then some (v, ⟨σ1.l, σ1.g.set i v, σ1.h⟩) else none
+    | some (v, σ1) => if i < σ1.g.length then some (v, σ1.gset i v) else none
     | none => none
   | fuel+1, cx, σ, .matchE _ s arms =>
     match evalE fuel cx σ s with
@@ -256,7 +505,7 @@ def evalE : Nat → Option (FnDef × Nat) → Sto → FExpr → Option (Val × S
     | none => none
   | fuel+1, cx, σ, .lset _ i e =>
     match evalE fuel cx σ e with
-    | some (v, σ1) => if i < σ1.l.length then some (v, ⟨σ1.l.set i v, σ1.g, σ1.h⟩) else none
+    | some (v, σ1) => if i < σ1.l.length then some (v, σ1.lset i v) else none
     | none => none
   | _+1, cx, σ, .curr _ =>
     match cx with
@@ -278,7 +527,7 @@ def evalE : Nat → Option (FnDef × Nat) → Sto → FExpr → Option (Val × S
       (match cx with
        | some (_, id) =>
          (match freeSet σ1.h id i v with
-          | some h' => some (v, ⟨σ1.l, σ1.g, h'⟩)
+          | some h' => some (v, σ1.setH h')
           | none => none)
        | none => none)
     | none => none
@@ -286,7 +535,7 @@ def evalE : Nat → Option (FnDef × Nat) → Sto → FExpr → Option (Val × S
     -- a closure is created: the CURRENT values of the captured variables are copied into a new
     -- closure object
     match capVals cx σ caps with
-    | some vs => some (.clos (mkFd code lines ⟨np, nl, body, l⟩) [] σ.h.length, ⟨σ.l, σ.g, σ.h ++ [vs]⟩)
+    | some vs => some (.clos (mkFd code lines ⟨np, nl, body, l⟩) [] σ.h.length, σ.pushH vs)
     | none => none
   | fuel+1, cx, σ, .call _ f args =>
     -- the callee, then the arguments left to right; the arity; the body in a fresh activation
@@ -300,20 +549,65 @@ def evalE : Nat → Option (FnDef × Nat) → Sto → FExpr → Option (Val × S
             (match Φ fd with
              | some d =>
                if vs.length = d.np then
-                 (match evalP fuel (some (fd, id)) ⟨vs ++ List.replicate (d.nl - d.np) .null, σ2.g, σ2.h⟩ d.body with
-                  | some (σ3, .ret v, _) => some (v, ⟨σ2.l, σ3.g, σ3.h⟩)       -- `return v;`
-                  | some (σ3, .normal, bv) => some (bv, ⟨σ2.l, σ3.g, σ3.h⟩)    -- the implicit return
+                 (match evalP fuel (some (fd, id)) (σ2.enter (vs ++ List.replicate (d.nl - d.np) .null)) d.body with
+                  | some (σ3, .ret v, _) => some (v, σ2.back σ3)       -- `return v;`
+                  | some (σ3, .normal, bv) => some (bv, σ2.back σ3)    -- the implicit return
                   | _ => none)
                else none
              | none => none)
+          | .builtin name =>
+            -- a builtin function: the pure function of `Builtins.call` on the argument values
+            (match callBuiltinH σ2.a name vs with
+             | some (r, a') => some (r, σ2.setA a')
+             | none => none)
           | _ => none)
+       | none => none)
+    | none => none
+  | fuel+1, cx, σ, .arrLit _ es =>
+    -- the elements left to right, then a NEW array object
+    match evalArgs fuel cx σ es with
+    | some (vs, σ1) => (match mkArr σ1.a vs with | (v, a') => some (v, σ1.setA a'))
+    | none => none
+  | fuel+1, cx, σ, .mapLit _ es =>
+    match evalArgs fuel cx σ es with
+    | some (vs, σ1) =>
+      (match mkMap σ1.a vs with
+       | some (m, a') => some (m, σ1.setA a')
+       | none => none)
+    | none => none
+  | fuel+1, cx, σ, .index _ c i =>
+    match evalE fuel cx σ c with
+    | some (vc, σ1) =>
+      (match evalE fuel cx σ1 i with
+       | some (vi, σ2) =>
+         (match getIndexH σ2.a vc vi with
+          | some v => some (v, σ2)
+          | none => none)
+       | none => none)
+    | none => none
+  | _+1, _, σ, .bfn _ i =>
+    match builtinName i with
+    | some n => some (.builtin n, σ)
+    | none => none
+  | fuel+1, cx, σ, .setIndex _ c i e =>
+    -- the right-hand side first, then the container and the index; the OBJECT is changed
+    match evalE fuel cx σ e with
+    | some (v, σ1) =>
+      (match evalE fuel cx σ1 c with
+       | some (vc, σ2) =>
+         (match evalE fuel cx σ2 i with
+          | some (vi, σ3) =>
+            (match setIndexH σ3.a vc vi v with
+             | some a' => some (v, σ3.setA a')
+             | none => none)
+          | none => none)
        | none => none)
     | none => none
 def evalArms : Nat → Option (FnDef × Nat) → Sto → Val → FArms → Option (Val × Sto)
   | 0, _, _, _, _ => none
   | fuel+1, cx, σ, _, .last _ _ d => evalE fuel cx σ d
   | fuel+1, cx, σ, v, .cons _ pats body rest =>
-    match patsTest v (pats.map erasePat) with
+    match patsTestH σ.a v (pats.map erasePat) with
     | some true => evalE fuel cx σ body
     | some false => evalArms fuel cx σ v rest
     | none => none
@@ -333,11 +627,11 @@ def evalS : Nat → Option (FnDef × Nat) → Sto → FStmt → Option (Sto × F
   | 0, _, _, _ => none
   | fuel+1, cx, σ, .letG _ i e =>
     (match evalE fuel cx σ e with
-     | some (v, σ1) => if i < σ1.g.length then some (⟨σ1.l, σ1.g.set i v, σ1.h⟩, .normal, .null) else none
+     | some (v, σ1) => if i < σ1.g.length then some (σ1.gset i v, .normal, .null) else none
      | none => none)
   | fuel+1, cx, σ, .letL _ i e =>
     (match evalE fuel cx σ e with
-     | some (v, σ1) => if i < σ1.l.length then some (⟨σ1.l.set i v, σ1.g, σ1.h⟩, .normal, .null) else none
+     | some (v, σ1) => if i < σ1.l.length then some (σ1.lset i v, .normal, .null) else none
      | none => none)
   | fuel+1, cx, σ, .expr _ e =>
     (match evalE fuel cx σ e with
@@ -350,7 +644,7 @@ def evalS : Nat → Option (FnDef × Nat) → Sto → FStmt → Option (Sto × F
   | fuel+1, cx, σ, .whileS l lbl c body =>
     (match evalE fuel cx σ c with
      | some (vc, σ1) =>
-       if vc.isFalsey then some (σ1, .normal, .null)
+       if falseyH σ1.a vc then some (σ1, .normal, .null)
        else (match evalP fuel cx σ1 body with
          | some (σ2, f, _) =>
            (match floopAct lbl f with
@@ -371,7 +665,7 @@ def evalS : Nat → Option (FnDef × Nat) → Sto → FStmt → Option (Sto × F
   | _+1, _, σ, .continueS _ l => some (σ, .cont l, .null)
   | fuel+1, cx, σ, .ifS _ _ c thn els =>
     (match evalE fuel cx σ c with
-     | some (vc, σ1) => if vc.isFalsey then evalP fuel cx σ1 els else evalP fuel cx σ1 thn
+     | some (vc, σ1) => if falseyH σ1.a vc then evalP fuel cx σ1 els else evalP fuel cx σ1 thn
      | none => none)
   | fuel+1, cx, σ, .ret _ e =>
     -- outside a function `return` is a (static) fault
@@ -409,7 +703,10 @@ mutual
 constants of its body and then its function constant -/
 def constsE : FExpr → List Val
   | .lit _ v => [v]
-  | .tru _ | .fls _ | .null _ | .gget .. | .lget .. | .curr _ | .fget .. => []
+  | .tru _ | .fls _ | .null _ | .gget .. | .lget .. | .curr _ | .fget .. | .bfn .. => []
+  | .arrLit _ es | .mapLit _ es => constsArgs es
+  | .index _ c i => constsE c ++ constsE i
+  | .setIndex _ c i e => constsE e ++ constsE c ++ constsE i
   | .un _ _ e => constsE e
   | .bin _ _ a b => constsE a ++ constsE b
   | .lt _ a b | .le _ a b => constsE b ++ constsE a
@@ -501,6 +798,17 @@ def compileE (pos k : Nat) : FExpr → List Instr
     -- the captured values in the order of their free indices, then `Closure c n`: the function
     -- constant follows the constants of its body in the pool
     caps.map capInstr ++ [.closure (k + (constsP body).length) caps.length]
+  | .arrLit _ es => compileArgs pos k es ++ [.array es.length]
+  | .mapLit _ es => compileArgs pos k es ++ [.hmap es.length]
+  | .index _ c i =>
+    let cc := compileE pos k c
+    cc ++ compileE (pos + bytes cc) (k + (constsE c).length) i ++ [.getIndex]
+  | .setIndex _ c i e =>
+    -- the right-hand side, the container, the index, `SetIndex`
+    let ce := compileE pos k e
+    let cc := compileE (pos + bytes ce) (k + (constsE e).length) c
+    ce ++ cc ++ compileE (pos + bytes ce + bytes cc) (k + (constsE e).length + (constsE c).length) i ++ [.setIndex]
+  | .bfn _ i => [.getBuiltin i]
 def compileArms (pos k : Nat) : FArms → List Instr
   | .last _ _ d =>
     let cd := compileE (pos + 3 + 3 + 1) k d
@@ -540,6 +848,10 @@ def sizeE : FExpr → Nat
   | .fget .. => 2
   | .fset _ _ e => sizeE e + 2
   | .mkclos _ _ _ _ _ _ caps => capsBytes caps + 4
+  | .arrLit _ es | .mapLit _ es => sizeArgs es + 3
+  | .index _ c i => sizeE c + sizeE i + 1
+  | .setIndex _ c i e => sizeE e + sizeE c + sizeE i + 1
+  | .bfn .. => 2
 def sizeArms : FArms → Nat
   | .last _ _ d => 3 + 3 + 1 + sizeE d
   | .cons _ pats body rest => patsBytes (pats.map erasePat) + 3 + 1 + sizeE body + 3 + sizeArms rest
@@ -658,6 +970,7 @@ structure FSt where
   stk : List Val          -- the operand stack, top first; `stk.length` is `sp`
   g : List Val
   h : List (List Val)     -- the closure objects: cell `id` = the captured values of `.clos fd [] id`
+  a : Heap                -- the arrays and maps (shared objects)
   callers : List Act      -- the frames below the current one
 deriving Repr
 
@@ -671,49 +984,56 @@ def botSet (stk : List Val) (j : Nat) (v : Val) : List Val := (stk.reverse.set j
 def botTake (stk : List Val) (n : Nat) : List Val := stk.drop (stk.length - n)
 
 /-- one step: `K` the constant pool, `F` the code of the function constants -/
-def fstep (K : List Val) (F : FnDef → Option (List Instr)) (s : FSt) : Option FSt :=
-  match fetch s.act.code s.act.pc with
+def fstep (K : List Val) (F : FnDef → Option (List Instr)) : FSt → Option FSt
+  | ⟨act, stk, g, h, a, callers⟩ =>
+  match fetch act.code act.pc with
   | none => none
   | some i =>
     match i with
     | .call n =>
       -- `exec_call` / `call_func`: the callee under the `n` arguments must be a closure whose
       -- `num_params` is `n`; `bp = sp - n`; the caller's `ip` goes past the `Call`; `sp = bp + num_locals`
-      (match s.stk[n]? with
+      (match stk[n]? with
        | some (.clos fd _ id) =>
          if n = fd.numParams then
            (match F fd with
             | some code =>
-              some ⟨⟨code, fd, id, 0, s.stk.length - n⟩, List.replicate (fd.numLocals - n) .null ++ s.stk, s.g, s.h,
-                    { s.act with pc := s.act.pc + 2 } :: s.callers⟩
+              some ⟨⟨code, fd, id, 0, stk.length - n⟩, List.replicate (fd.numLocals - n) .null ++ stk, g, h, a,
+                    { act with pc := act.pc + 2 } :: callers⟩
             | none => none)
          else none
+       | some (.builtin name) =>
+         -- `call_builtin`: the `n` arguments (the first one deepest); the callee and the arguments
+         -- are replaced by the result
+         (match callBuiltinH a name (stk.take n).reverse with
+          | some (r, a') => some ⟨{ act with pc := act.pc + 2 }, r :: stk.drop (n + 1), g, h, a', callers⟩
+          | none => none)
        | _ => none)
     | .retv =>
       -- pop the value, pop the frame, `sp = bp - 1`, push the value
-      (match s.stk, s.callers with
-       | v :: _, c :: cs => some ⟨c, v :: botTake s.stk (s.act.bp - 1), s.g, s.h, cs⟩
+      (match stk, callers with
+       | v :: _, c :: cs => some ⟨c, v :: botTake stk (act.bp - 1), g, h, a, cs⟩
        | _, _ => none)
     | .ret =>
-      (match s.callers with
-       | c :: cs => some ⟨c, .null :: botTake s.stk (s.act.bp - 1), s.g, s.h, cs⟩
+      (match callers with
+       | c :: cs => some ⟨c, .null :: botTake stk (act.bp - 1), g, h, a, cs⟩
        | [] => none)
     | .getLocal i =>
-      (match botGet s.stk (s.act.bp + i) with
-       | some v => some ⟨{ s.act with pc := s.act.pc + 2 }, v :: s.stk, s.g, s.h, s.callers⟩
+      (match botGet stk (act.bp + i) with
+       | some v => some ⟨{ act with pc := act.pc + 2 }, v :: stk, g, h, a, callers⟩
        | none => none)
     | .setLocal i =>
-      (match s.stk with
+      (match stk with
        | v :: _ =>
-         if s.act.bp + i < s.stk.length then
-           some ⟨{ s.act with pc := s.act.pc + 2 }, botSet s.stk (s.act.bp + i) v, s.g, s.h, s.callers⟩
+         if act.bp + i < stk.length then
+           some ⟨{ act with pc := act.pc + 2 }, botSet stk (act.bp + i) v, g, h, a, callers⟩
          else none
        | [] => none)
     | .defLocal i =>
-      (match s.stk with
+      (match stk with
        | v :: rest =>
-         if s.act.bp + i < rest.length then
-           some ⟨{ s.act with pc := s.act.pc + 2 }, botSet rest (s.act.bp + i) v, s.g, s.h, s.callers⟩
+         if act.bp + i < rest.length then
+           some ⟨{ act with pc := act.pc + 2 }, botSet rest (act.bp + i) v, g, h, a, callers⟩
          else none
        | [] => none)
     | .closure c nfree =>
@@ -721,30 +1041,82 @@ def fstep (K : List Val) (F : FnDef → Option (List Instr)) (s : FSt) : Option 
       -- becomes `free[i]`), are copied into a new closure object and popped
       (match K[c]? with
        | some (.func fd) =>
-         if nfree ≤ s.stk.length then
-           some ⟨{ s.act with pc := s.act.pc + 4 }, .clos fd [] s.h.length :: s.stk.drop nfree, s.g,
-                 s.h ++ [(s.stk.take nfree).reverse], s.callers⟩
+         if nfree ≤ stk.length then
+           some ⟨{ act with pc := act.pc + 4 }, .clos fd [] h.length :: stk.drop nfree, g,
+                 h ++ [(stk.take nfree).reverse], a, callers⟩
          else none
        | _ => none)
     | .currClosure =>
-      some ⟨{ s.act with pc := s.act.pc + 1 }, .clos s.act.fd [] s.act.cid :: s.stk, s.g, s.h, s.callers⟩
+      some ⟨{ act with pc := act.pc + 1 }, .clos act.fd [] act.cid :: stk, g, h, a, callers⟩
     | .getFree i =>
       -- `current_frame().closure.free[i]`
-      (match freeGet s.h s.act.cid i with
-       | some v => some ⟨{ s.act with pc := s.act.pc + 2 }, v :: s.stk, s.g, s.h, s.callers⟩
+      (match freeGet h act.cid i with
+       | some v => some ⟨{ act with pc := act.pc + 2 }, v :: stk, g, h, a, callers⟩
        | none => none)
     | .setFree i =>
       -- `current_frame().closure.free[i] = top`: the running closure's own copy, nothing else
-      (match s.stk with
+      (match stk with
        | v :: _ =>
-         (match freeSet s.h s.act.cid i v with
-          | some h' => some ⟨{ s.act with pc := s.act.pc + 2 }, s.stk, s.g, h', s.callers⟩
+         (match freeSet h act.cid i v with
+          | some h' => some ⟨{ act with pc := act.pc + 2 }, stk, g, h', a, callers⟩
           | none => none)
        | [] => none)
+    | .op o =>
+      -- the operators look into containers (`==` element-wise, `+` builds a new array)
+      (match stk with
+       | r :: l :: rest =>
+         (match opH a o l r with
+          | .same v => some ⟨{ act with pc := act.pc + 1 }, v :: rest, g, h, a, callers⟩
+          | .new v a' => some ⟨{ act with pc := act.pc + 1 }, v :: rest, g, h, a', callers⟩
+          | .fail => none)
+       | _ => none)
+    | .bang =>
+      (match stk with
+       | v :: rest => some ⟨{ act with pc := act.pc + 1 }, .bool (falseyH a v) :: rest, g, h, a, callers⟩
+       | [] => none)
+    | .jif t =>
+      (match stk with
+       | v :: rest => some ⟨{ act with pc := if falseyH a v then t else act.pc + 3 }, rest, g, h, a, callers⟩
+       | [] => none)
+    | .jifnp t =>
+      (match stk with
+       | v :: rest => some ⟨{ act with pc := if falseyH a v then t else act.pc + 3 }, v :: rest, g, h, a, callers⟩
+       | [] => none)
+    | .array n =>
+      -- `build_array`: the `n` topmost operands, the deepest first, become a new array object
+      if n ≤ stk.length then
+        (match mkArr a (stk.take n).reverse with
+         | (v, a') => some ⟨{ act with pc := act.pc + 3 }, v :: stk.drop n, g, h, a', callers⟩)
+      else none
+    | .hmap n =>
+      if n ≤ stk.length then
+        (match mkMap a (stk.take n).reverse with
+         | some (m, a') => some ⟨{ act with pc := act.pc + 3 }, m :: stk.drop n, g, h, a', callers⟩
+         | none => none)
+      else none
+    | .getIndex =>
+      (match stk with
+       | i :: c :: rest =>
+         (match getIndexH a c i with
+          | some v => some ⟨{ act with pc := act.pc + 1 }, v :: rest, g, h, a, callers⟩
+          | none => none)
+       | _ => none)
+    | .setIndex =>
+      -- index, container, value popped; the value pushed back
+      (match stk with
+       | i :: c :: v :: rest =>
+         (match setIndexH a c i v with
+          | some a' => some ⟨{ act with pc := act.pc + 1 }, v :: rest, g, h, a', callers⟩
+          | none => none)
+       | _ => none)
+    | .getBuiltin i =>
+      (match builtinName i with
+       | some n => some ⟨{ act with pc := act.pc + 2 }, .builtin n :: stk, g, h, a, callers⟩
+       | none => none)
     | _ =>
       -- every other instruction: the core machine on the current frame's code
-      (match step s.act.code K ⟨s.act.pc, s.stk, s.g⟩ with
-       | some t => some ⟨{ s.act with pc := t.pc }, t.stk, t.g, s.h, s.callers⟩
+      (match step act.code K ⟨act.pc, stk, g⟩ with
+       | some t => some ⟨{ act with pc := t.pc }, t.stk, t.g, h, a, callers⟩
        | none => none)
 
 inductive FSteps (K : List Val) (F : FnDef → Option (List Instr)) : FSt → FSt → Prop
